@@ -157,8 +157,12 @@ func newSTree(s *openapi.ResourceSchema) *sTree {
 	return &sTree{schema: s, strategy: st, keys: ks, fields: map[string]*sTree{}, noField: map[string]bool{}}
 }
 
+// multiKeyDirective is set by grow when a "$patch" key is met anywhere below an element of a list
+// whose schema declares more than one merge key (see the domain note in design.d/C04.md).
+var multiKeyDirective bool
+
 // grow follows the schema along the document subtree n.
-func (t *sTree) grow(n *kyaml.Node) {
+func (t *sTree) grow(n *kyaml.Node, inMulti bool) {
 	if n == nil {
 		return
 	}
@@ -166,6 +170,9 @@ func (t *sTree) grow(n *kyaml.Node) {
 	case kyaml.MappingNode:
 		for i := 0; i+1 < len(n.Content); i += 2 {
 			k := n.Content[i].Value
+			if inMulti && k == "$patch" {
+				multiKeyDirective = true
+			}
 			c := t.fields[k]
 			if c == nil && !t.noField[k] {
 				if cs := t.schema.Field(k); cs != nil {
@@ -177,7 +184,7 @@ func (t *sTree) grow(n *kyaml.Node) {
 				}
 			}
 			if c != nil {
-				c.grow(n.Content[i+1])
+				c.grow(n.Content[i+1], inMulti)
 			}
 		}
 	case kyaml.SequenceNode:
@@ -193,7 +200,7 @@ func (t *sTree) grow(n *kyaml.Node) {
 		}
 		if t.elems != nil {
 			for _, e := range n.Content {
-				t.elems.grow(e)
+				t.elems.grow(e, inMulti || len(t.keys) > 1)
 			}
 		}
 	}
@@ -262,6 +269,7 @@ func dumpSchemaTree(srcs ...*kyaml.RNode) string {
 	}
 	var b strings.Builder
 	cnt := 0
+	multiKeyDirective = false
 	for _, r := range roots {
 		rs := openapi.SchemaForResourceType(kyaml.TypeMeta{Kind: r.kind, APIVersion: r.av})
 		if rs == nil {
@@ -274,7 +282,7 @@ func dumpSchemaTree(srcs ...*kyaml.RNode) string {
 			}
 			allNodes(s.YNode(), func(n *kyaml.Node) {
 				if n.Kind == kyaml.MappingNode {
-					t.grow(n)
+					t.grow(n, false)
 				}
 			})
 		}
